@@ -38,6 +38,7 @@ func runC01(c *Ctx) {
 	c01Pref64Lifetime(c)
 	c01PrepareKeepsConfig(c)
 	freshRA(c, "R-C01-5")
+	everyDialPrepares(c, "R-C01-8")
 	scratchAliasing(c, "R-C01-7", fnsInPkgs(c, "internal/plugin", "internal/config"), "an option built earlier (or the configuration itself) is overwritten when the next one is built")
 	// "exactly the options the configuration calls for … for every interface address list / loopback
 	// route list": the wildcard stanzas expand by the rules of C13–C15, which are shared here
@@ -1012,4 +1013,68 @@ func freshRA(c *Ctx, rule string) {
 			"an RA built earlier is reused: it no longer reflects the hardware address, addresses, clock or forwarding state of this moment")
 	}
 	c.R.Check(n >= 1, rule, c.fname(b)+":success-paths", c.fname(b), c.pos(b.Pos()), fmt.Sprintf("%d returning path(s) without error", n), ">= 1", "anchor-missing")
+}
+
+// everyDialPrepares (R-C01-8, second half): what depends on the interface is
+// read again on every dial. Every path of the advertiser's dial callback that
+// goes on to transmit or to advertise() has gone through the loop that calls
+// Plugin.Prepare (with the interface of this dial) — a dial that skips it keeps
+// the hardware address and the address sources of the previous connection.
+func everyDialPrepares(c *Ctx, rule string) {
+	cl := dialClosure(c, rule, "Advertiser")
+	if cl == nil {
+		return
+	}
+	reach := an.ModuleReach([]*ssa.Function{cl}, load.InModule, nil)
+	hdrs := map[*ssa.BasicBlock]bool{}
+	for f := range reach {
+		for _, b := range f.Blocks {
+			for _, in := range b.Instrs {
+				ci, ok := in.(ssa.CallInstruction)
+				if !ok || !ci.Common().IsInvoke() || ci.Common().Method.Name() != "Prepare" {
+					continue
+				}
+				if n, ok := ci.Common().Value.Type().(*types.Named); !ok || n.Obj().Pkg() == nil || n.Obj().Pkg().Path() != PkgPlugin {
+					continue
+				}
+				for h := b; h != nil; h = h.Idom() {
+					isHdr := false
+					for _, pr := range h.Preds {
+						if h.Dominates(pr) {
+							isHdr = true
+						}
+					}
+					if isHdr {
+						hdrs[h] = true
+						break
+					}
+				}
+			}
+		}
+	}
+	c.R.Check(len(hdrs) >= 1, rule, c.fname(cl)+":prepare-loop", c.fname(cl), c.pos(cl.Pos()), fmt.Sprintf("%d loop(s) calling Plugin.Prepare reachable from the dial callback", len(hdrs)), ">= 1", "anchor-missing")
+	if len(hdrs) == 0 {
+		return
+	}
+	n, bad := 0, ""
+	for _, p := range c.pathsO(rule, cl, an.PathOpts{EmitCut: true}) {
+		uses := callsOnPath(p, func(cc *ssa.CallCommon) bool {
+			return an.CallIs(cc, PkgCorerad, "Advertiser", "advertise") || an.CallIs(cc, PkgCorerad, "Advertiser", "send")
+		})
+		if len(uses) == 0 {
+			continue
+		}
+		n++
+		visited := false
+		for h := range hdrs {
+			if p.Visited(h) {
+				visited = true
+			}
+		}
+		if !visited {
+			bad = "a path reaches " + uses[0].Common().Value.Name() + " without the Prepare loop (under " + atomsString(p) + ")"
+		}
+	}
+	c.R.Check(bad == "" && n >= 1, rule, c.fname(cl)+":every-dial-prepares", c.fname(cl), c.pos(cl.Pos()), fmt.Sprintf("%d path(s) to a transmission; %s", n, bad),
+		"every dial runs Plugin.Prepare for each plugin before anything is sent", "RAs after a re-dial carry the hardware address / address sources of the previous connection")
 }
